@@ -11,7 +11,10 @@ world = {
               "params": {...}, "pose0": [16]}],          # colliders for add_collider
   "cmds": [ {"op": "fill", "whitelists": bool, "use_visuals": bool}    (links may carry "visuals": [...] like "collisions")
           | {"op": "add", "extra": k, "frame": str (optional override), "reuse": j (optional: re-use the
-             OBJECT created for an earlier add of extra j  -> aliasing), "no_tm": bool}
+             OBJECT created for an earlier add of extra j  -> aliasing), "no_tm": bool,
+             "replace": bool (the frame is registered / known to the transform manager already: tool change),
+             "same": bool (re-add the very object that was removed from this frame)}
+          | {"op": "remove", "frame": str}     # del bvh.colliders_[frame]; bvh.collider_frames.discard(frame)
           | {"op": "set_joint", "joint": str, "value": float}
           | {"op": "move", "frame": str, "parent": str, "T": [16], "inplace": bool}   # tm.add_transform; inplace: the array
              object handed over earlier is overwritten and added again
@@ -150,6 +153,7 @@ class World:
         self.added = set()
         self.tf = {}            # frame -> (parent, the array OBJECT handed to tm.add_transform)
         self.base_stamp = {}    # oid -> pose stamp after the last state-changing command
+        self.removed = {}       # frame -> the object taken out of colliders_ last
 
     # -- object registry -------------------------------------------------
     def register(self, obj, kind, params, pose0):
@@ -273,7 +277,10 @@ class World:
                     arr = arr44(ex["T"])
                     tm.add_transform(frame, ex["parent"], arr)
                     self.tf[frame] = (ex["parent"], arr)
-                if "reuse" in cmd:
+                if cmd.get("same"):
+                    obj = self.removed[frame]
+                    i = self.oid(obj)
+                elif "reuse" in cmd:
                     obj = self.extra_obj[cmd["reuse"]]
                     i = self.oid(obj)
                 else:
@@ -283,6 +290,15 @@ class World:
                 rec["frame"], rec["oid"] = frame, i
                 bvh.add_collider(frame, obj)
                 self.added.add(frame)
+            elif op == "remove":
+                # there is no method for it: the caller edits the public attributes
+                rec["frame"] = cmd["frame"]
+                obj = bvh.colliders_[cmd["frame"]]
+                del bvh.colliders_[cmd["frame"]]
+                bvh.collider_frames.discard(cmd["frame"])
+                self.removed[cmd["frame"]] = obj
+                self.added.discard(cmd["frame"])
+                rec["oid"] = self.oid(obj)
             elif op == "set_joint":
                 tm.set_joint(cmd["joint"], cmd["value"])
             elif op == "move":
@@ -326,11 +342,11 @@ class World:
                 rec["r"] = [[self._datum(a), self._datum(b)] for a, b in r]
             elif op == "detect":
                 rec["snap"] = self.snapshot(True)
-                r = SC.detect(bvh)
+                r = self._narrow_logged(SC.detect, rec)
                 rec["r"] = [[f, bool(v)] for f, v in r.items()]
             elif op == "detect_any":
                 rec["snap"] = self.snapshot(True)
-                rec["r"] = bool(SC.detect_any(bvh))
+                rec["r"] = bool(self._narrow_logged(SC.detect_any, rec))
             elif op == "dump":
                 rec["snap"] = self.snapshot(False)
             else:
@@ -339,7 +355,7 @@ class World:
             rec["exc"] = type(e).__name__
             rec["msg"] = str(e)[:200]
             rec["tb"] = traceback.format_exc()[-600:]
-        if op in ("fill", "add", "update"):
+        if op in ("fill", "add", "update", "remove"):
             for f, c in bvh.colliders_.items():
                 i = self.oid(c)
                 if i >= 0:
@@ -348,6 +364,21 @@ class World:
                     except Exception:  # noqa
                         pass
         return rec
+
+    def _narrow_logged(self, fn, rec):
+        """run detect / detect_any and record WHICH collider objects it hands to the narrow phase"""
+        calls = []
+        orig = G.gjk_intersection
+
+        def logged(c1, c2, *a, **kw):
+            calls.append([self.oid(c1), self.oid(c2)])
+            return orig(c1, c2, *a, **kw)
+        G.gjk_intersection = logged
+        try:
+            return fn(self.bvh)
+        finally:
+            G.gjk_intersection = orig
+            rec["narrow_calls"] = calls
 
     def _stamp_frame(self, f, pose):
         c = self.bvh.colliders_.get(f)
